@@ -1243,6 +1243,17 @@ func (e *Env) evalCall(n *ECall) SVal {
 	case "offof":
 		v := e.eval(n.Args[0])
 		return mathInt("(s-off " + v.t + ")")
+	case "cur":
+		// cur(x): the current value of the source variable x where x is a parameter that the body reassigns
+		// (a bare parameter name always denotes the value passed in)
+		id, ok := n.Args[0].(*EIdent)
+		if !ok {
+			e.fail("cur(x): x must be a variable name")
+		}
+		if v, ok := e.localByName(id.Name); ok {
+			return v
+		}
+		return e.eval(n.Args[0])
 	case "atentry":
 		// value of an expression when the enclosing loop was entered
 		if e.loop == nil || e.loop.entryState == nil {
